@@ -18,6 +18,9 @@ use std::path::Path;
 pub struct BreakpointRecord {
     pub id: i64,
     pub addresses: Vec<debugger::address::Address>,
+    /// Debugger breakpoint numbers behind this record. Numbers survive the start and restart of
+    /// the debugee, addresses do not (global before the program is loaded, relocated after).
+    pub numbers: Vec<u32>,
     pub condition: Option<String>,
     pub hit_condition: Option<HitCondition>,
     pub log_message: Option<String>,
@@ -195,7 +198,38 @@ impl DebugSession {
         }
     }
 
+    /// Bring the addresses stored in breakpoint records up to date with the debugger:
+    /// a breakpoint requested before the program is loaded has a global address, the same
+    /// breakpoint has a relocated address once the program runs (and after every restart).
+    pub(super) fn refresh_breakpoint_addresses(&mut self) {
+        let Some(dbg) = self.debugger.as_ref() else {
+            return;
+        };
+        let current: HashMap<u32, debugger::address::Address> = dbg
+            .breakpoints_snapshot()
+            .iter()
+            .map(|view| (view.number, view.addr))
+            .collect();
+        let records = self
+            .breakpoints_by_source
+            .values_mut()
+            .flatten()
+            .chain(self.function_breakpoints.iter_mut())
+            .chain(self.instruction_breakpoints.iter_mut());
+        for record in records {
+            if record.numbers.is_empty() {
+                continue;
+            }
+            record.addresses = record
+                .numbers
+                .iter()
+                .filter_map(|number| current.get(number).copied())
+                .collect();
+        }
+    }
+
     pub(super) fn handle_set_breakpoints(&mut self, req: &DapRequest) -> anyhow::Result<()> {
+        self.refresh_breakpoint_addresses();
         let client_source_path = req
             .arguments
             .get("source")
@@ -268,6 +302,7 @@ impl DebugSession {
                         new_breakpoints.push(BreakpointRecord {
                             id,
                             addresses: vec![first.addr],
+                            numbers: vec![first.number],
                             condition: options.condition,
                             hit_condition: options.hit_condition,
                             log_message: options.log_message,
@@ -290,6 +325,7 @@ impl DebugSession {
                         new_breakpoints.push(BreakpointRecord {
                             id,
                             addresses: Vec::new(),
+                            numbers: Vec::new(),
                             condition: options.condition,
                             hit_condition: options.hit_condition,
                             log_message: options.log_message,
@@ -319,6 +355,7 @@ impl DebugSession {
         &mut self,
         req: &DapRequest,
     ) -> anyhow::Result<()> {
+        self.refresh_breakpoint_addresses();
         let prev = std::mem::take(&mut self.function_breakpoints);
         let bps = req
             .arguments
@@ -379,6 +416,7 @@ impl DebugSession {
                     new_breakpoints.push(BreakpointRecord {
                         id,
                         addresses: Vec::new(),
+                        numbers: Vec::new(),
                         condition: options.condition,
                         hit_condition: options.hit_condition,
                         log_message: options.log_message,
@@ -402,6 +440,7 @@ impl DebugSession {
                         new_breakpoints.push(BreakpointRecord {
                             id,
                             addresses: views.iter().map(|view| view.addr).collect(),
+                            numbers: views.iter().map(|view| view.number).collect(),
                             condition: options.condition,
                             hit_condition: options.hit_condition,
                             log_message: options.log_message,
@@ -423,6 +462,7 @@ impl DebugSession {
                         new_breakpoints.push(BreakpointRecord {
                             id,
                             addresses: Vec::new(),
+                            numbers: Vec::new(),
                             condition: options.condition,
                             hit_condition: options.hit_condition,
                             log_message: options.log_message,
@@ -444,6 +484,7 @@ impl DebugSession {
                         new_breakpoints.push(BreakpointRecord {
                             id,
                             addresses: Vec::new(),
+                            numbers: Vec::new(),
                             condition: options.condition,
                             hit_condition: options.hit_condition,
                             log_message: options.log_message,
@@ -485,6 +526,7 @@ impl DebugSession {
         &mut self,
         req: &DapRequest,
     ) -> anyhow::Result<()> {
+        self.refresh_breakpoint_addresses();
         let prev = std::mem::take(&mut self.instruction_breakpoints);
         let bps = req
             .arguments
@@ -532,6 +574,7 @@ impl DebugSession {
                     new_breakpoints.push(BreakpointRecord {
                         id,
                         addresses: Vec::new(),
+                        numbers: Vec::new(),
                         condition: options.condition,
                         hit_condition: options.hit_condition,
                         log_message: options.log_message,
@@ -558,6 +601,7 @@ impl DebugSession {
                         new_breakpoints.push(BreakpointRecord {
                             id,
                             addresses: Vec::new(),
+                            numbers: Vec::new(),
                             condition: options.condition,
                             hit_condition: options.hit_condition,
                             log_message: options.log_message,
@@ -583,6 +627,7 @@ impl DebugSession {
                         new_breakpoints.push(BreakpointRecord {
                             id,
                             addresses: vec![view.addr],
+                            numbers: vec![view.number],
                             condition: options.condition,
                             hit_condition: options.hit_condition,
                             log_message: options.log_message,
@@ -604,6 +649,7 @@ impl DebugSession {
                         new_breakpoints.push(BreakpointRecord {
                             id,
                             addresses: Vec::new(),
+                            numbers: Vec::new(),
                             condition: options.condition,
                             hit_condition: options.hit_condition,
                             log_message: options.log_message,
